@@ -34,7 +34,7 @@ FilesOf(tree) == LET L == RangeOf(tree.lens) IN
 \*  OUTIDX (index.html in the PARENT of the root) are outside the root and therefore never in FilesOf)
 
 WellFormedCase(c) ==
-    /\ c.route \in {"fs", "fsrw", "file", "vhost"} /\ c.via \in {"read", "writeto", "iocopy"} /\ c.tree.mtime = MTime
+    /\ c.route \in {"fs", "fsrw", "file", "vhost"} /\ c.via \in {"read", "writeto", "iocopy"} /\ c.tree.mtime = MTime /\ c.mw \in BOOLEAN
     /\ c.route = "file" => c.abr /\ c.compress            \* ServeFile's rootFS has AcceptByteRange and Compress
     /\ Len(c.reqs) >= 1
     /\ \A i \in DOMAIN c.reqs :
